@@ -22,14 +22,14 @@ type Item struct {
 
 // SeqResult is what a sequential (input/history enumeration) item reports.
 type SeqResult struct {
-	Cases      int64
-	Nontrivial int64
-	States     int64
+	Cases       int64
+	Nontrivial  int64
+	States      int64
 	Transitions int64
-	Pristine   int64 // cases also validated against the unmodified package
-	Samples    []string
-	Found      []SeqFound
-	Exhaustive bool
+	Pristine    int64 // cases also validated against the unmodified package
+	Samples     []string
+	Found       []SeqFound
+	Exhaustive  bool
 }
 
 type SeqFound struct {
